@@ -19,7 +19,7 @@ use crate::world::{SchedCfg, MS};
 pub enum HsOp {
     /// AddCertificate / RemoveCertificate / ReplaceCertificate on the command's listener
     Cert(Op),
-    /// AddHttpsFrontend for this hostname (cluster "cl", no backend)
+    /// AddHttpsFrontend for this hostname (tenant cluster `t_<hostname>` with its own backend)
     AddFront(String),
     RemoveFront(String),
 }
@@ -55,6 +55,21 @@ pub struct CmdPlan {
 pub struct ReqPlan {
     pub h2: bool,
     pub host: String,
+    /// how the generator chose the authority (probe label only; the oracle looks at `host`)
+    #[serde(default)]
+    pub kind: String,
+}
+
+/// a request after the first one on the same connection: HTTP/1.1 keep-alive = sent once the previous
+/// answer is complete; HTTP/2 = a new stream, opened either in the same flight as the previous stream
+/// (`concurrent`) or once the previous stream has ended
+#[derive(Clone, Debug, Serialize, Deserialize, PartialEq)]
+pub struct MoreReq {
+    pub host: String,
+    #[serde(default)]
+    pub kind: String,
+    #[serde(default)]
+    pub concurrent: bool,
 }
 
 #[derive(Clone, Debug, Serialize, Deserialize, PartialEq)]
@@ -82,6 +97,9 @@ pub struct ClientPlan {
     #[serde(default = "gate_none")]
     pub hold: Gate,
     pub request: Option<ReqPlan>,
+    /// further requests on the same connection (only with `request`)
+    #[serde(default)]
+    pub more: Vec<MoreReq>,
 }
 fn gate_none() -> Gate { Gate::None }
 
@@ -91,6 +109,10 @@ pub struct ListenerPlan {
     /// HttpsListenerConfig.strict_sni_binding (None = default = enabled)
     pub strict: Option<bool>,
     pub initial: Vec<CertArg>,
+    /// hostnames with an HTTPS frontend (path prefix "/") on this listener from the start; every
+    /// hostname is its own tenant: cluster `t_<hostname>` with its own backend
+    #[serde(default)]
+    pub fronts: Vec<String>,
 }
 
 #[derive(Clone, Debug, Serialize, Deserialize)]
@@ -176,7 +198,7 @@ pub fn generate(seed: u64, tier: Tier) -> Result<HsPlan, String> {
             if set.insert(c) { initial.push(gen_arg(&mut rng, c, &pool, p_override, 0, false)); }
         }
         let strict = match (family, rng.below(10)) { ("hs_strict", 0..=6) => None, ("hs_strict", 7) => Some(true), ("hs_strict", _) => Some(false), (_, 0..=6) => None, (_, 7) => Some(true), _ => Some(false) };
-        listeners.push(ListenerPlan { addr: if l == 0 { "10.0.0.1:443".into() } else { "10.0.0.2:8443".into() }, strict, initial });
+        listeners.push(ListenerPlan { addr: if l == 0 { "10.0.0.1:443".into() } else { "10.0.0.2:8443".into() }, strict, initial, fronts: vec![] });
         loaded.push(set);
     }
     // ---- commands
@@ -235,6 +257,20 @@ pub fn generate(seed: u64, tier: Tier) -> Result<HsPlan, String> {
     let mut mentioned: Vec<Vec<usize>> = listeners.iter().map(|l| l.initial.iter().map(|a| a.cert).collect()).collect();
     for c in &cmds { if let HsOp::Cert(Op::Add(a)) | HsOp::Cert(Op::Replace { new: a, .. }) = &c.op { if a.names.is_empty() { mentioned[c.listener].push(a.cert); } } }
     let likely: Vec<Vec<&'static str>> = mentioned.iter().map(|m| HOSTS.iter().copied().filter(|h| m.iter().any(|c| fx[*c].names.iter().any(|n| super::covers(n, h, true).is_some()))).collect()).collect();
+    // ---- tenants: hostnames with a frontend (and an own cluster + backend) per listener
+    let front_cmd_hosts: Vec<Vec<String>> = (0..nl).map(|l| cmds.iter().filter(|c| c.listener == l).filter_map(|c| match &c.op { HsOp::AddFront(h) | HsOp::RemoveFront(h) => Some(h.clone()), _ => None }).collect()).collect();
+    let p_front = *rng.pick(&[40u64, 65, 65, 90]);
+    for l in 0..nl {
+        let mut cand: Vec<&str> = likely[l].clone();
+        for h in ["a.test", "b.test", "x.a.test", "www.b.test", "other.example"] { if !cand.contains(&h) { cand.push(h); } }
+        let mut f: Vec<String> = cand.iter().filter(|_| rng.below(100) < p_front).map(|h| h.to_string()).collect();
+        if f.len() > 7 { rng.shuffle(&mut f); f.truncate(7); f.sort(); }
+        listeners[l].fronts = f;
+    }
+    // hosts that some certificate mentioned on the listener covers together with `host`
+    let siblings = |l: usize, host: &str| -> Vec<&'static str> {
+        HOSTS.iter().copied().filter(|h| *h != host && mentioned[l].iter().any(|c| { let ns = &fx[*c].names; ns.iter().any(|n| super::covers(n, host, true).is_some()) && ns.iter().any(|n| super::covers(n, h, true).is_some()) })).collect()
+    };
     let nclients = 3 + rng.below(match tier { Tier::Quick => 7, Tier::Thorough => 10 }) as usize;
     let mut clients: Vec<ClientPlan> = Vec::new();
     for i in 0..nclients {
@@ -244,7 +280,12 @@ pub fn generate(seed: u64, tier: Tier) -> Result<HsPlan, String> {
         let j = rng.below(cmds.len() as u64) as usize;
         // relation to command j
         let cl = if rng.below(3) == 0 { l } else { cmds[j].listener };
-        let host = if !likely[cl].is_empty() && rng.below(7) != 0 { *rng.pick(&likely[cl]) } else { *rng.pick(&hosts) };
+        let wants_req = !raw && sni_kind != "trailing_dot" && rng.below(100) < if family == "hs_strict" { 85 } else { 30 };
+        let nreq = if !wants_req { 0 } else { match rng.below(20) { 0..=6 => 1usize, 7..=13 => 2, _ => 3 } };
+        // a later request is only seen when the earlier ones were routed: such clients mostly ask for a
+        // name that is both likely covered and a tenant of the listener
+        let routable: Vec<&'static str> = likely[cl].iter().copied().filter(|h| listeners[cl].fronts.iter().any(|f| f == h)).collect();
+        let host = if nreq > 0 && !routable.is_empty() && rng.below(10) < if nreq > 1 { 8 } else { 5 } { *rng.pick(&routable) } else if !likely[cl].is_empty() && rng.below(7) != 0 { *rng.pick(&likely[cl]) } else { *rng.pick(&hosts) };
         let mut c = ClientPlan {
             listener: cl,
             raw,
@@ -259,6 +300,7 @@ pub fn generate(seed: u64, tier: Tier) -> Result<HsPlan, String> {
             wq: *rng.pick(&[0usize, 0, 0, 1, 7, 100, 1000]),
             hold: Gate::None,
             request: None,
+            more: vec![],
         };
         let jitter = |rng: &mut Prng| rng.below(400_000);
         let split_wanted = family == "hs_split_hello" && rng.below(3) != 0 || rng.below(8) == 0;
@@ -291,11 +333,34 @@ pub fn generate(seed: u64, tier: Tier) -> Result<HsPlan, String> {
             cmds[j].gate = Gate::Client(i, 2);
             c.hold = Gate::Cmd(j, 2);
         }
-        if !raw && sni_kind != "trailing_dot" {
-            let p_req = if family == "hs_strict" { 85 } else { 30 };
-            if rng.below(100) < p_req {
-                let rh = match rng.below(10) { 0..=3 => host.to_string(), 4 => host.to_ascii_uppercase(), 5 => format!("{host}:443"), 6 => "other.example".to_string(), _ => rng.pick(&hosts).to_string() };
-                c.request = Some(ReqPlan { h2: rng.below(2) == 0, host: rh });
+        if nreq > 0 {
+            let sib = siblings(cl, host);
+            let tenants: Vec<String> = listeners[cl].fronts.iter().chain(front_cmd_hosts[cl].iter()).filter(|h| *h != host).cloned().collect();
+            let authority = |rng: &mut Prng, first: bool| -> (String, String) {
+                // weights: first request of a sequence mostly passes, later requests mostly probe the binding
+                let r = rng.below(20);
+                let kind = if first && nreq > 1 { match r { 0..=9 => "sni", 10..=11 => "sni_case", 12 => "sni_port", 13..=15 => "sibling", 16..=17 => "other_tenant", 18 => "uncovered", _ => "random" } }
+                    else if first { match r { 0..=6 => "sni", 7..=8 => "sni_case", 9..=10 => "sni_port", 11..=12 => "uncovered", 13..=14 => "other_tenant", 15..=16 => "sibling", _ => "random" } }
+                    else { match r { 0..=2 => "sni", 3..=4 => "sni_case", 5 => "sni_port", 6..=11 => "other_tenant", 12..=15 => "sibling", 16..=17 => "uncovered", _ => "random" } };
+                let kind = match kind { "sibling" if sib.is_empty() => "other_tenant", k => k };
+                let kind = match kind { "other_tenant" if tenants.is_empty() => "random", k => k };
+                let h = match kind {
+                    "sni" => host.to_string(),
+                    "sni_case" => if rng.below(2) == 0 { host.to_ascii_uppercase() } else { spell(host, "mixed_case").unwrap() },
+                    "sni_port" => format!("{host}:443"),
+                    "sibling" => { let s = *rng.pick(&sib); if rng.below(6) == 0 { s.to_ascii_uppercase() } else { s.to_string() } }
+                    "other_tenant" => { let s = rng.pick(&tenants).clone(); if rng.below(6) == 0 { s.to_ascii_uppercase() } else { s } }
+                    "uncovered" => "other.example".to_string(),
+                    _ => rng.pick(&hosts).to_string(),
+                };
+                (h, kind.to_string())
+            };
+            let (h, kind) = authority(&mut rng, true);
+            let h2 = rng.below(2) == 0;
+            c.request = Some(ReqPlan { h2, host: h, kind });
+            for _ in 1..nreq {
+                let (h, kind) = authority(&mut rng, false);
+                c.more.push(MoreReq { host: h, kind, concurrent: h2 && rng.below(2) == 0 });
             }
         }
         clients.push(c);
@@ -349,6 +414,8 @@ pub fn shrink(p: &HsPlan) -> Vec<HsPlan> {
         for i in (0..p.listeners[l].initial.len()).rev() { let mut q = p.clone(); q.listeners[l].initial.remove(i); out.push(q); }
         for i in 0..p.listeners[l].initial.len() { for a in simplify_arg(&p.listeners[l].initial[i]) { let mut q = p.clone(); q.listeners[l].initial[i] = a; out.push(q); } }
         if p.listeners[l].strict.is_some() { let mut q = p.clone(); q.listeners[l].strict = None; out.push(q); }
+        if p.listeners[l].fronts.len() > 1 { let mut q = p.clone(); q.listeners[l].fronts.clear(); out.push(q); }
+        for i in (0..p.listeners[l].fronts.len()).rev() { let mut q = p.clone(); q.listeners[l].fronts.remove(i); out.push(q); }
     }
     for j in 0..p.cmds.len() {
         let c = &p.cmds[j];
@@ -365,13 +432,18 @@ pub fn shrink(p: &HsPlan) -> Vec<HsPlan> {
     }
     for i in 0..p.clients.len() {
         let c = &p.clients[i];
-        if c.request.is_some() { let mut q = p.clone(); q.clients[i].request = None; out.push(q); }
+        if c.request.is_some() { let mut q = p.clone(); q.clients[i].request = None; q.clients[i].more.clear(); out.push(q); }
+        if !c.more.is_empty() { let mut q = p.clone(); q.clients[i].more.clear(); out.push(q); }
+        if c.more.len() > 1 { for k in (0..c.more.len()).rev() { let mut q = p.clone(); q.clients[i].more.remove(k); out.push(q); } }
+        // the first request is dropped, the second takes its place
+        if let (Some(r), Some(m)) = (&c.request, c.more.first()) { let mut q = p.clone(); q.clients[i].request = Some(ReqPlan { h2: r.h2, host: m.host.clone(), kind: m.kind.clone() }); q.clients[i].more.remove(0); out.push(q); }
+        for k in 0..c.more.len() { if c.more[k].concurrent { let mut q = p.clone(); q.clients[i].more[k].concurrent = false; out.push(q); } }
         if c.split != 0 { let mut q = p.clone(); q.clients[i].split = 0; q.clients[i].resume = Gate::None; q.clients[i].resume_ns = 0; out.push(q); }
         if c.gate != Gate::None { let mut q = p.clone(); q.clients[i].gate = Gate::None; out.push(q); }
         if c.wq != 0 { let mut q = p.clone(); q.clients[i].wq = 0; out.push(q); }
         if c.hold != Gate::None { let mut q = p.clone(); q.clients[i].hold = Gate::None; out.push(q); }
         if c.version != 0 && !c.raw { let mut q = p.clone(); q.clients[i].version = 0; out.push(q); }
-        if let Some(r) = &c.request { if r.h2 { let mut q = p.clone(); q.clients[i].request = Some(ReqPlan { h2: false, host: r.host.clone() }); out.push(q); } }
+        if let Some(r) = &c.request { if r.h2 { let mut q = p.clone(); q.clients[i].request = Some(ReqPlan { h2: false, host: r.host.clone(), kind: r.kind.clone() }); for m in q.clients[i].more.iter_mut() { m.concurrent = false; } out.push(q); } }
     }
     let d = SchedCfg::default();
     if p.sched.ev_truncate_pm != 0 || p.sched.ev_permute_pm != 0 || p.sched.preempt_pm != 0 || p.sched.short_write_pm != 0 || p.sched.eagain_pm != 0 || p.sched.actor_burst != d.actor_burst { let mut q = p.clone(); q.sched = d; out.push(q); }
@@ -399,8 +471,8 @@ pub fn gate_text(g: &Gate) -> String {
 
 pub fn summarize(p: &HsPlan) -> String {
     let Ok(fx) = fixtures() else { return p.family.clone() };
-    let ls: Vec<String> = p.listeners.iter().enumerate().map(|(i, l)| format!("L{i}{}[{}]", match l.strict { None => "", Some(true) => "(strict)", Some(false) => "(lax)" }, l.initial.iter().map(|a| super::op_summary(&Op::Add(a.clone()), fx).replacen("add ", "", 1)).collect::<Vec<_>>().join(","))).collect();
+    let ls: Vec<String> = p.listeners.iter().enumerate().map(|(i, l)| format!("L{i}{}[{}]{}", match l.strict { None => "", Some(true) => "(strict)", Some(false) => "(lax)" }, l.initial.iter().map(|a| super::op_summary(&Op::Add(a.clone()), fx).replacen("add ", "", 1)).collect::<Vec<_>>().join(","), if l.fronts.is_empty() { String::new() } else { format!(" fronts={}", l.fronts.join(",")) })).collect();
     let ks: Vec<String> = p.cmds.iter().enumerate().map(|(j, c)| format!("k{j}@{}us L{} {}{}{}", c.at_ns / 1000, c.listener, op_text(&c.op, fx), gate_text(&c.gate), if c.wq > 0 { format!(" wq={}", c.wq) } else { String::new() })).collect();
-    let cs: Vec<String> = p.clients.iter().enumerate().map(|(i, c)| format!("c{i}@{}us L{} {}{:?}{}{}{}", c.at_ns / 1000, c.listener, if c.raw { "raw12 " } else { "" }, c.sni.as_deref().unwrap_or("-"), gate_text(&c.gate), if c.split > 0 { format!(" split={}{}", c.split, gate_text(&c.resume)) } else if c.hold != Gate::None { format!(" hold{}", gate_text(&c.hold)) } else { String::new() }, c.request.as_ref().map(|r| format!(" {}:{}", if r.h2 { "h2" } else { "h1" }, r.host)).unwrap_or_default())).collect();
+    let cs: Vec<String> = p.clients.iter().enumerate().map(|(i, c)| format!("c{i}@{}us L{} {}{:?}{}{}{}", c.at_ns / 1000, c.listener, if c.raw { "raw12 " } else { "" }, c.sni.as_deref().unwrap_or("-"), gate_text(&c.gate), if c.split > 0 { format!(" split={}{}", c.split, gate_text(&c.resume)) } else if c.hold != Gate::None { format!(" hold{}", gate_text(&c.hold)) } else { String::new() }, c.request.as_ref().map(|r| format!(" {}:{}{}", if r.h2 { "h2" } else { "h1" }, r.host, c.more.iter().map(|m| format!("{}{}", if m.concurrent { " || " } else { " -> " }, m.host)).collect::<String>())).unwrap_or_default())).collect();
     format!("{}: {} | {} | {}", p.family, ls.join(" "), ks.join("; "), cs.join("; "))
 }
